@@ -134,6 +134,17 @@ class ImmediateLoop:
         cb(*a, **k)
 
 
+def settle(loop):
+    """vloop.settle gives up after 50 consecutive non-blocking iterations (its busy-wait detection).  Long chains of
+    future callbacks (dozens of gather coroutines resuming one after the other) look the same, and nothing in these
+    pipelines busy-waits, so keep settling until the loop really ran dry."""
+    for _ in range(400):
+        loop.spun = False
+        loop.settle()
+        if not loop.spun:
+            return
+
+
 class Run:
     """one pipeline on one virtual loop"""
 
@@ -144,7 +155,8 @@ class Run:
         self.sunk = []
         self.fired = []           # (input index, number of sink deliveries at that moment)
         self.counters = {}
-        self.emit_state = None    # None | 'pending' | 'done' | 'failed:<cls>'
+        self.emit_state = None    # state of the LAST emit: None | 'pending' | 'done' | 'failed:<cls>'
+        self.emit_states = {}     # emit index -> state (several can be pending when the producer does not await)
         self.errors = []
         self.client = None
         self._saved = None
@@ -202,30 +214,38 @@ class Run:
         vj, has_ref = self.case["inputs"][i]
         md = [{"id": i, "ref": self.counter(i)}] if has_ref else None
         self.emit_state = 'pending'
+        self.emit_states[i] = 'pending'
+
+        def setst(st):
+            self.emit_states[i] = st
+            if i == max(self.emit_states):
+                self.emit_state = st
+            if st.startswith('failed'):
+                self.emit_state = st
 
         def go():
             try:
                 fut = self.source.emit(val_from_json(vj), metadata=md)
             except Exception as e:
-                self.emit_state = 'failed:' + type(e).__name__
+                setst('failed:' + type(e).__name__)
                 self.errors.append(repr(e))
                 return
 
             async def waiter():
                 try:
                     await fut
-                    self.emit_state = 'done'
+                    setst('done')
                 except Exception as e:
-                    self.emit_state = 'failed:' + type(e).__name__
+                    setst('failed:' + type(e).__name__)
                     self.errors.append(repr(e))
             self.loop.create_task(waiter())
         self.loop.call_soon(go)
-        self.loop.settle()
+        settle(self.loop)
 
     def done(self, k):
         ok = []
         self.loop.call_soon(lambda: ok.append(self.client.task_done(k)))
-        self.loop.settle()
+        settle(self.loop)
         return ok and ok[0]
 
     def close(self):
@@ -248,7 +268,7 @@ def run_local(case):
     r = Run(case, dask=False)
     try:
         r.loop.call_soon(r.build)
-        r.loop.settle()
+        settle(r.loop)
         per_emit = []
         stalled = False
         for i in range(len(case["inputs"])):
@@ -268,6 +288,12 @@ def run_dask(case, actions=None, awaited=True):
     """Dask pipeline over the fake client.  The schedule is produced online by the seeded policy in case['sched'] (or
     replayed from `actions`); every step is recorded: [action, deliveries since the previous step]."""
     sched = case.get("sched", {"seed": 0, "mode": "random", "p_emit": 0.5})
+    if actions is None and sched.get("actions") is not None:
+        actions = sched["actions"]           # scripted schedule (corpus)
+    # aw[i]: the producer waits for emit i to complete before it emits input i+1
+    aw = sched.get("await")
+    if aw is None:
+        aw = [awaited] * len(case["inputs"])
     rng = random.Random(sched.get("seed", 0))
     mode = sched.get("mode", "random")
     p_emit = sched.get("p_emit", 0.5)
@@ -275,27 +301,30 @@ def run_dask(case, actions=None, awaited=True):
     steps = []
     try:
         r.loop.call_soon(r.build)
-        r.loop.settle()
+        settle(r.loop)
         n = len(case["inputs"])
         nxt = 0
         seen = 0
         stalled = False
         guard = 0
+        max_pending = 0
         replay = list(actions) if actions is not None else None
         while True:
             guard += 1
             if guard > 2000:
                 stalled = True
                 break
+            if replay is not None and not replay:
+                replay = None                      # scripted prefix done: the seeded policy finishes the run
             if replay is not None:
-                if not replay:
-                    break
                 act = replay.pop(0)
+                if act[0] == "emit" and act[1] >= n:
+                    continue
             else:
-                can_emit = nxt < n and (r.emit_state != 'pending' or not awaited)
+                can_emit = nxt < n and (nxt == 0 or not aw[nxt - 1] or r.emit_states.get(nxt - 1) != 'pending')
                 elig = r.client.eligible()
                 if not can_emit and not elig:
-                    if nxt < n or r.emit_state == 'pending':
+                    if nxt < n or any(v == 'pending' for v in r.emit_states.values()):
                         stalled = True
                     break
                 if can_emit and elig:
@@ -315,6 +344,7 @@ def run_dask(case, actions=None, awaited=True):
             if act[0] == "emit":
                 r.emit(act[1])
                 nxt = act[1] + 1
+                max_pending = max(max_pending, sum(1 for v in r.emit_states.values() if v == 'pending'))
             else:
                 if not r.done(act[1]):
                     steps.append([act, None])      # not eligible in this run (replay on a different tree)
@@ -330,7 +360,7 @@ def run_dask(case, actions=None, awaited=True):
         return {"sunk": [val_to_json(v) for v in r.sunk], "fired": [list(f) for f in r.fired], "counts": r.counts(),
                 "stalled": stalled, "errors": r.errors, "steps": steps, "ntasks": len(r.client.futures),
                 "unfinished": r.client.unfinished(), "emit_state": r.emit_state,
-                "overtaken": r.gather_done != sorted(r.gather_done),
+                "overtaken": r.gather_done != sorted(r.gather_done), "max_pending_emits": max_pending,
                 "last_md": {str(k): v for k, v in r.last_md.items()},
                 "nsubmit": sum(1 for e in log if e[0] == 'submit')}
     finally:
